@@ -1,6 +1,10 @@
 """Schedule replay on the real GeminiServerProtocol (fake transport, gate-controlled middleware /
 handler / upload handler) and the matching model cases.  A case is (cfg, events):
-  cfg    = dict(has_mw, has_upload, peer_ip, fp (bool: client certificate presented), hres)
+  cfg    = dict(has_mw, has_upload, peer_ip, fp (bool: client certificate presented), hres[, up_sync])
+  up_sync= absent/None: the upload handler is an `async def` (its call returns a coroutine; completion = a "done" event)
+           | "raise" | ("raise", msg): a plain function whose call raises (Exception or ValueError)(msg) before any awaitable exists
+           | "value": a plain function that hands back a response object instead of an awaitable (asyncio.create_task refuses it)
+           -> the model's up_call_fails (Model/ServerProto.v)
   hres   = ("value", resp) | ("raise", msg) | ("async",)
   resp   = (status:int, meta:str, body: None | ("t", str) | ("b", bytes))
   events = ("read", [bytes...]) | ("timer",) | ("done", id, outcome) | ("lost",)
@@ -68,13 +72,49 @@ def enc_event(e):
     if e[0] == "done": return ["done", e[1], enc_outcome(e[2])]
     return ["lost"]
 
+SYNC_MSG = "the upload handler failed before returning an awaitable"
+SYNC_VALUE = (20, "text/gemini", None)      # what an upload handler of kind "value" hands back instead of an awaitable
+
+_NOT_A_CORO = None
+def not_a_coroutine_message():
+    """str() of the TypeError asyncio.create_task raises when it is handed SYNC_VALUE's response object instead of a coroutine -
+    obtained from asyncio itself inside a running loop, not from the implementation under test."""
+    global _NOT_A_CORO
+    if _NOT_A_CORO is None:
+        async def probe():
+            try:
+                asyncio.create_task(mk_resp(SYNC_VALUE))
+            except TypeError as e:
+                return str(e)
+            raise AssertionError("asyncio.create_task accepted a response object")
+        import threading
+        box = []
+        t = threading.Thread(target=lambda: box.append(asyncio.run(probe())))    # usable from inside a running loop too
+        t.start(); t.join()
+        _NOT_A_CORO = box[0]
+    return _NOT_A_CORO
+
+def up_sync_of(cfg):
+    """-> None | ("raise", msg) | ("value",)"""
+    u = cfg.get("up_sync")
+    if not u: return None
+    if u == "raise": return ("raise", SYNC_MSG)
+    if u == "value": return ("value",)
+    return tuple(u)
+
+def up_call_fails(cfg):
+    """the model's up_call_fails for this configuration: [] (the call yields an awaitable) or [message]"""
+    u = up_sync_of(cfg)
+    if u is None: return []
+    if u[0] == "raise": return [u[1]]
+    return [not_a_coroutine_message()]
+
 def enc_cfg(cfg, ip6table):
     h = cfg["hres"]
     hres = ["value", enc_resp(h[1])] if h[0] == "value" else (["raise", h[1]] if h[0] == "raise" else ["async"])
     fp = [client_cert()[1]] if cfg["fp"] else []
-    return [bool(cfg["has_mw"]), bool(cfg["has_upload"]), cfg["peer_ip"] if cfg["peer_ip"] is not None else "unknown", fp, hres, ip6table]
-
-SYNC_MSG = "the upload handler failed before returning an awaitable"
+    return [bool(cfg["has_mw"]), bool(cfg["has_upload"]), cfg["peer_ip"] if cfg["peer_ip"] is not None else "unknown", fp, hres, ip6table,
+            up_call_fails(cfg)]
 
 class Escape(Exception):
     pass
@@ -108,13 +148,13 @@ async def run_schedule(cfg, events, settle=8):
             return await finish(i)
     class UPSync:
         """an upload handler whose call is over before any awaitable exists: it raises, or hands back a response object instead
-        of an awaitable (cfg["up_sync"] = "raise" | "value").  The invocation is recorded like any other."""
+        of an awaitable (cfg["up_sync"]).  The invocation is recorded as the action "upc" (the model's AUploadCall): no task."""
         def handle_upload(self, req):
             seen.append([req.hostname, req.port, req.path, req.parsed_url.query])
-            i = new_gate(); acts.append(["up", i, req.raw_url, bytes(req.content)])
-            gates[i].set_result(("raise", SYNC_MSG))
-            if cfg["up_sync"] == "raise": raise Exception(SYNC_MSG)
-            return mk_resp((20, "text/gemini", None))
+            acts.append(["upc", req.raw_url, bytes(req.content)])
+            u = up_sync_of(cfg)
+            if u[0] == "raise": raise (Exception if len(u[1]) % 2 == 0 else ValueError)(u[1])
+            return mk_resp(SYNC_VALUE)
     async def async_handler():
         i = new_gate(); acts.append(["ht", i])
         return await finish(i)
@@ -126,7 +166,7 @@ async def run_schedule(cfg, events, settle=8):
         if h[0] == "raise": raise Exception(h[1])
         return async_handler()
     urllib_calls = []
-    p = GeminiServerProtocol(handler, MW() if cfg["has_mw"] else None, (UPSync() if cfg.get("up_sync") else UP()) if cfg["has_upload"] else None)
+    p = GeminiServerProtocol(handler, MW() if cfg["has_mw"] else None, (UPSync() if up_sync_of(cfg) else UP()) if cfg["has_upload"] else None)
     der = client_cert()[0] if cfg["fp"] else None
     peer = (cfg["peer_ip"], 4242) if cfg["peer_ip"] is not None else None
     t = FakeTransport(acts, peer, der)
